@@ -70,7 +70,7 @@ PROPS['C19'] = {
     'title': 'Generation-counter wrap-around never loses or resurrects a callback',
     'level': 'model_checking',
     'parts': split('harness/list.cpp', 'C19/', 19, 2, ['g17'], ['g17O0']),
-    'rule': 'the C01/C02 search with currentCounter preset to UINT_MAX-p for every p in 0..6 and the absolute distance-to-wrap in the state key, so the wrap happens before, at and after every position of every explored history (also inside nested invocations)',
+    'rule': 'the C01/C02 search with currentCounter preset to UINT_MAX-p for every p in 0..6 and the absolute distance-to-wrap in the state key, so the wrap happens before, at and after every position of every explored history (also inside nested invocations); plus (an extension: the property ranges over sequential histories) the concurrent WRAP units of C03 - all schedules within the preemption bound, and all interleavings of the 2-call configurations, of thread programs in which one of the additions wraps the counter while other threads remove, traverse and add',
     'assumptions': H_ASSUME + ['currentCounter is placed through private access (the suite does the same through #define private public)'],
     'bounds': {'quick': 'K=3, B=1, depth = preset+4 (<=9); pools of 3 lists depth 5', 'thorough': 'K=3, B=2, depth 10-11; pools depth 8'},
 }
@@ -133,6 +133,10 @@ PROPS['C03'] = {
 }
 
 PROPS['C03']['parts'] += [{'src': 'harness/sheter.cpp', 'prefix': 'C03/heter/', 'variants': ['g17']}]
+# the generation counter wraps during one of the concurrent additions (fix 15 was found here)
+WRAP_PARTS = [{'src': 'harness/slist.cpp', 'prefix': 'C03/wrap/', 'variants': ['g17'], 'defs': ['VERIF_SUB=%d' % i]} for i in (7, 8)]
+PROPS['C03']['parts'] += WRAP_PARTS
+PROPS['C03']['rule'] += '; plus WRAP units (C03/wrap/...): the same kinds of configurations (wrapping addition x any call; x two calls; addition+follow-up x two calls; from an empty list) with the generation counter placed so that the 1st, 2nd, ... addition made by the threads wraps it, so that the renumbering of all nodes races removals, traversals and other additions - bounded (CallbackList with VMutex and SpinLock, EventDispatcher) and all-interleavings (CallbackList)'
 PROPS['C03']['rule'] += '; plus (an extension beyond the anchored classes) HeterCallbackList / HeterEventDispatcher with the injected Threading policy: all pairs of {append/prepend per prototype, invoke per prototype, remove of a pre-registered handle, append under a second event} on 2 threads, triples around the lazily created per-prototype list, 2x2 programs in the thorough tier; the inner per-prototype lists (which always use std::mutex) are atomic blocks; oracle: nothing registered is lost or duplicated after the threads joined, a handle is removed at most once, an invocation calls nothing twice and nothing of another prototype, no deadlock'
 
 PROPS['C05'] = {
@@ -146,7 +150,7 @@ PROPS['C05'] = {
 PROPS['C13'] = {
     'title': 'OrderedQueueList processes events in comparator order, stably, exactly once',
     'level': 'model_checking',
-    'parts': split('harness/queue.cpp', 'C13/', 13, 3, ['g17'], ['g17O0']),
+    'parts': split('harness/queue.cpp', 'C13/', 13, 4, ['g17'], ['g17O0']),
     'rule': 'the C05 search with QueueList = OrderedQueueList and comparators ascending key / descending key / key mod 2 (large equivalence classes) over keys {1,2,3} with duplicates; the model keeps its deque stably sorted (declined events re-enter ahead of equal newer ones)',
     'assumptions': H_ASSUME,
     'bounds': {'quick': 'K=3 (4 for mod-2) pending, flat depth 5, nested budget 1 depth 4', 'thorough': 'flat to fixpoint (depth 20) for K=3; mod-2 classes with K=4 to depth 9; nested budget 2 depth 4'},
@@ -158,6 +162,7 @@ PROPS['C08']['parts'] += [{'src': 'harness/pool.cpp', 'prefix': 'C08/', 'variant
 PROPS['C08']['parts'] += [{'src': 'harness/anydata.cpp', 'prefix': 'C17/', 'variants': ['g17O0'], 'defs': ['VERIF_SUB=%d' % i], 'only_sigs': 'ledger|destroyed|leak|held-object'} for i in (1, 3)]
 PROPS['C08']['rule'] += '; plus the AnyData enumeration of C17 (capacities 16 and 64: every payload kind, size, move chain and queue round trip, incl. a held type that throws) with only the ledger clauses counted'
 PROPS['C19']['parts'] += [{'src': 'harness/pool.cpp', 'prefix': 'C19/pool/CallbackList/single/near-wrap', 'variants': ['g17'], 'quick_variants': ['g17O0'], 'defs': ['VERIF_PREFIX="C19/pool"', 'VERIF_NEARWRAP_ALL', 'VERIF_SUB=0']}, {'src': 'harness/pool.cpp', 'prefix': 'C19/pool/CallbackList/multi/near-wrap', 'variants': ['g17'], 'tier': 'thorough', 'defs': ['VERIF_PREFIX="C19/pool"', 'VERIF_NEARWRAP_ALL', 'VERIF_SUB=0']}]
+PROPS['C19']['parts'] += [dict(x) for x in WRAP_PARTS]
 PROPS['C19']['rule'] += '; plus pools of 3 CallbackLists with counters preset 0..4 steps before the wrap: copy/move construction and assignment, swap and nested additions between lists whose counters are on different sides of the wrap'
 PROPS['C08']['rule'] += '; plus the C10 object-pool searches (copies, moves, swaps of 3 container types) with the callback-copy ledger as the only oracle'
 PROPS['C05']['parts'] += [{'src': 'harness/dispatch.cpp', 'prefix': 'C05/', 'variants': ['g17O0'], 'defs': ['VERIF_QUEUE', 'VERIF_SUB=2', 'VERIF_FULL=0'], 'tier': 'quick'}]
